@@ -130,35 +130,73 @@ def trim_scenario(sc, max_rows=6):
     return sc
 
 
+def _limit_memory():
+    # an allocation the size of the machine must fail fast instead of thrashing (no swap here)
+    import resource
+    lim = 12 << 30
+    resource.setrlimit(resource.RLIMIT_AS, (lim, lim))
+
+
 def run_workers(binary, prop, seed, total, budget_s, outdir, extra_args=None):
+    """Fan the run indices out over NPROC worker processes. A run that makes the process abort
+    (allocation failure, stack overflow: not catchable in-process) is recorded as an aborted run
+    and the worker is restarted behind it; anything else abnormal is a harness error."""
     os.makedirs(outdir, exist_ok=True)
     for f in glob.glob(os.path.join(outdir, "*.jsonl")):
         os.remove(f)
-    procs = []
     env = env_offline({"LD_PRELOAD": SHIM})
-    for w in range(NPROC):
-        out = os.path.join(outdir, "w%02d.jsonl" % w)
-        cmd = [binary, "run", "--prop", prop, "--seed", str(seed), "--from", "0", "--to", str(total),
-               "--stride", str(NPROC), "--offset", str(w), "--out", out, "--deadline-s", str(budget_s)]
+    t_start = time.time()
+
+    def launch(w, start_from, part):
+        out = os.path.join(outdir, "w%02d.%d.jsonl" % (w, part))
+        remaining = max(1.0, budget_s - (time.time() - t_start))
+        cmd = [binary, "run", "--prop", prop, "--seed", str(seed), "--from", str(start_from), "--to", str(total),
+               "--stride", str(NPROC), "--offset", "0", "--out", out, "--deadline-s", str(remaining)]
         if extra_args:
             cmd += extra_args
-        procs.append((w, subprocess.Popen(cmd, env=env, stdout=subprocess.PIPE, stderr=subprocess.PIPE, text=True)))
-    bad = []
-    for w, p in procs:
-        so, se = p.communicate()
-        if p.returncode != 0:
-            bad.append((w, p.returncode, se[-2000:]))
-    records = []
-    for w in range(NPROC):
-        path = os.path.join(outdir, "w%02d.jsonl" % w)
+        return subprocess.Popen(cmd, env=env, stdout=subprocess.PIPE, stderr=subprocess.PIPE, text=True, preexec_fn=_limit_memory), out
+
+    def read(path):
+        recs, truncated = [], False
         if os.path.exists(path):
             for line in open(path):
                 line = line.strip()
                 if line:
                     try:
-                        records.append(json.loads(line))
+                        recs.append(json.loads(line))
                     except json.JSONDecodeError:
-                        bad.append((w, "truncated record", line[:200]))
+                        truncated = True
+        return recs, truncated
+
+    state = {w: {"from": w, "part": 0, "restarts": 0} for w in range(NPROC) if w < total}
+    procs = {w: launch(w, st["from"], 0) for w, st in state.items()}
+    records, bad, aborted = [], [], []
+    while procs:
+        for w in list(procs.keys()):
+            p, out = procs[w]
+            so, se = p.communicate()
+            del procs[w]
+            recs, _ = read(out)
+            records.extend(recs)
+            if p.returncode == 0:
+                continue
+            st = state[w]
+            last = max([r["run"] for r in recs], default=st["from"] - NPROC)
+            crashed = last + NPROC
+            if p.returncode in (-6, -11, 134, 139) and crashed < total and st["restarts"] < 40:
+                # the run after the last completed one took the process down
+                aborted.append({"run": crashed, "signal": p.returncode, "stderr": "\n".join([l for l in se.splitlines() if not l.startswith("  ")][:3])})
+                st["restarts"] += 1
+                st["part"] += 1
+                st["from"] = crashed + NPROC
+                if st["from"] < total:
+                    procs[w] = launch(w, st["from"], st["part"])
+            else:
+                bad.append((w, p.returncode, se[-2000:]))
+    for a in aborted:
+        records.append({"seed": seed, "run": a["run"], "property": prop, "verdict": {"Skip": "process_abort"}, "shape": None, "tags": [],
+                        "stats": {"statements": 0, "draws": 0, "executions": 0, "faults": {}, "probes": {"process_abort": 1}, "ops": 0, "events": 0, "interleaving": "", "queries": 0},
+                        "digest": "", "ref_digest": "", "notes": [a["stderr"]], "scenario": None, "workload": None})
     records.sort(key=lambda r: r["run"])
     return records, bad
 
